@@ -52,17 +52,51 @@ def main():
         return V.EXIT_INCONCLUSIVE
 
 
+def read_tables(scratch, nat):
+    """finite tables read out of the real code natively: which built-in each method name dispatches to (Primitive::lookup) and
+    the declared result type (TypeLayout::get_property_type)"""
+    disp = {}
+    recv_vals = {"Int": 1, "BigInt": 1, "Float": 0x3FF0000000000000, "Byte": 1, "Str": 0x61}
+    res = nat.eval([("t_" + k, "T:lookup", [(k, v)]) for k, v in recv_vals.items()], False)
+    for k in recv_vals:
+        r = res["t_" + k]
+        for ent in (r[2].split(",") if len(r) > 2 else []):
+            name, var = ent.split("=")
+            disp[(k, name)] = None if var == "None" else var
+    decl = {}
+    for t in N.NativeCompiler(scratch).run():
+        if t[0] == "builtin":
+            k = "Str" if t[1].startswith("Str") else t[1]
+            decl[(k, t[2])] = None if t[3] == "None" else t[3]
+    if len(disp) < 100 or len(decl) < 100:
+        raise V.Inconclusive("built-in tables not read (%d, %d)" % (len(disp), len(decl)))
+    return disp, decl
+
+
 def check(scratch, nat, a, t0):
     qs = Q.QueryStats()
     info = {"functions": {}, "paths": {}, "validation_vectors": {}, "models": {}}
     timeout_ms = 20000 if a.tier == "quick" else 120000
     findings = []
+    disp, decl = read_tables(scratch, nat)
+    info["tables"] = {"dispatch_entries": len(disp), "declared_entries": len(decl)}
     for release in (False, True):
         profile = "release" if release else "dev"
         oc = not release
         bk = B.BuiltinKernels(mir.MirFile(scratch.mir_dump("bytecode", oc)), oc, scratch.repo, seed=V.seed())
         info["functions"][profile] = bk.encoded_functions()
-        summaries = [bk.summarize(m, k, e) for m, k, e in cases(a.tier)]
+        summaries = []
+        table_findings = []
+        for m, k, e in cases(a.tier):
+            variant = disp.get((k, m))
+            d = decl.get((k, m))
+            if variant is None:
+                if d is not None and e is None:
+                    table_findings.append(table_finding(m, k, "declared-but-not-dispatched", profile, "the type checker knows `%s.%s` (-> %s) but Primitive::lookup does not resolve it" % (k, m, d)))
+                continue
+            s_ = bk.summarize(m, k, e, variant=variant)
+            s_.declared = d
+            summaries.append(s_)
         info["paths"][profile] = sum(len(s.paths) for s in summaries)
         info["models"][profile] = sorted(bk.ex.stats["models_used"])
         concrete = [s for s in summaries if not s.uninterpreted]
@@ -73,7 +107,50 @@ def check(scratch, nat, a, t0):
                 log("  TRANSLATOR MISMATCH", m)
             raise V.Inconclusive("engine B disagrees with the real built-ins on %d of %d vectors (%s), first: %r" % (len(mism), n, profile, mism[0]))
         log("  [%s] %d summaries, %d paths; translator validation: %d vectors agree with the real code" % (profile, len(summaries), info["paths"][profile], n))
-        pf = []
+        pf = list(table_findings)
+        # declared result kind = the kind the method's meaning gives (finite table, native) - per (receiver, method)
+        seen_decl = set()
+        for s in summaries:
+            orc0 = B.oracle(s.op, s.kinds, s.inputs, s.exponent)
+            key = (s.op, s.kinds[0])
+            if key in seen_decl or not orc0.get("supported"):
+                continue
+            seen_decl.add(key)
+            want = orc0["kind"]
+            got = B.DECLARED.get(s.declared or "", s.declared)
+            if got != want:
+                pf.append(table_finding(s.op, s.kinds[0], "declared-kind-differs", profile, "declared result type `%s`, the method yields %s" % (s.declared, want)))
+        # string -> number parsers on an ARBITRARY string: every result is nil or a present value of the declared kind
+        for m, (extra, inner) in B.PARSERS.items():
+            variant = disp.get(("Str", m))
+            d = decl.get(("Str", m))
+            if variant is None:
+                if d is not None:
+                    pf.append(table_finding(m, "Str", "declared-but-not-dispatched", profile, "`str.%s` is declared (-> %s) but not resolved at run time" % (m, d)))
+                continue
+            inputs, kinds, res = bk.summarize_parser(m, variant)
+            ps = K.Summary(m, tuple(kinds), inputs, [], bk.fn, 0)
+            ps.via = "built-in"
+            want_decl = (B.DECLARED.get((d or "").rstrip("?"), None), (d or "").endswith("?"))
+            for i, (pc, kind, x) in enumerate(res):
+                lab = "%s[Str]/%s:path%d" % (m, profile, i)
+                if kind == "panic":
+                    continue      # C17's business (reported there)
+                if kind != "ok":
+                    continue
+                okk = (x == "Nil" and want_decl[1]) or (x == "Some" + str(want_decl[0]))
+                if not okk:
+                    r, vals = Q.decide(pc, ps, qs, timeout_ms, V.seed(), lab + ":declared-kind")
+                    if r == "sat":
+                        f = Q.Finding("C14", m, "Str", "declared-kind-differs", profile, [("Str", 0x31)] + ([("Int", vals[1])] if len(vals) > 1 else []),
+                                      "declared `%s`, a run-time result has shape %s" % (d, x))
+                        f.native_op = "B:" + m
+                        f.predicted = None
+                        f.parser_shape = x
+                        pf.append(f)
+                else:
+                    qs.obligations += 1
+                    qs.discharged += 1
         for s in summaries:
             orc = B.oracle(s.op, s.kinds, s.inputs, s.exponent)
             arm = s.kinds[0] + ("" if s.exponent is None else ",exp=%d" % s.exponent) + (",exp<0" if s.pre is not None else "")
@@ -95,6 +172,13 @@ def check(scratch, nat, a, t0):
     return report(a, findings, qs, info, t0)
 
 
+def table_finding(method, kind, cls, profile, detail):
+    f = Q.Finding("C14", method, kind, cls, profile, [], detail)
+    f.native_op = None
+    f.table = True
+    return f
+
+
 def exact_float_bits(kind, bits):
     """bit pattern of the double nearest to the integer value (Python's int -> float conversion is correctly rounded)"""
     import struct
@@ -110,6 +194,13 @@ def exact_float_bits(kind, bits):
 def confirm(findings, nat, release):
     if not findings:
         return
+    for f in findings:
+        if getattr(f, "table", False):
+            f.native = ["(finite table read from the real code)"]
+            f.confirmed = True
+    findings = [f for f in findings if not getattr(f, "table", False)]
+    if not findings:
+        return
     vecs = []
     for i, f in enumerate(findings):
         if f.summ_uninterpreted and f.op == "powf":
@@ -122,6 +213,10 @@ def confirm(findings, nat, release):
     res = nat.eval(vecs, release)
     for i, f in enumerate(findings):
         f.native = list(res["w%d" % i])
+        if getattr(f, "parser_shape", None):
+            # the real parser, on a string that parses ("1"), must show the same shape the engine derived
+            f.confirmed = f.native[0] == "OK" and f.native[1] == f.parser_shape or f.parser_shape == "Nil"
+            continue
         if f.summ_uninterpreted:
             ref = list(res["x%d" % i])
             f.native = {"got": f.native, "same method on the exactly converted float receiver": ref}
